@@ -26,6 +26,9 @@ Units == { U(<<97>>), U(<<92, 34>>), U(<<92, 92>>), U(<<92, 47>>), U(<<92, 98>>)
            U(<<195, 169>>), U(<<226, 130, 172>>), U(<<240, 159, 152, 128>>),                                             \* é € U+1F600 raw
            U(<<36>>), U(<<46>>), U(<<91>>), U(<<96>>), U(<<39>>), U(<<123>>), U(<<32>>),
            U(<<47>>), U(<<42>>), U(<<47, 42>>), U(<<42, 47>>), U(<<124>>), U(<<58, 61>>), U(<<126, 62>>),        \* / * /* */ | := ~> : characters that mean something outside a string
+           U(<<239, 191, 189>>), U(<<92, 117, 70, 70, 70, 68>>), U(<<92, 117, 48, 48, 48, 48>>), U(<<92, 117, 48, 48, 49, 102>>), U(<<92, 117, 48, 48, 55, 102>>),   \* U+FFFD raw and escaped, NUL, U+001F, DEL
+           U(<<92, 117, 100, 98, 102, 102, 92, 117, 100, 102, 102, 102>>),                                               \* U+10FFFF
+           Bad(<<92, 117, 43, 48, 52, 49>>), Bad(<<92, 117, 45, 48, 48, 48>>),                                          \* \u+041  \u-000 : a sign is not a hex digit
            Bad(<<92, 117, 100, 56, 51, 100>>), Bad(<<92, 117, 100, 101, 48, 48>>), Bad(<<92, 113>>), Bad(<<92, 117, 48, 48, 103, 49>>) }
 UnitSeqs == UNION {[1..n -> Units] : n \in 0..MaxUnits}
 Body(us) == SeqConcatAll([i \in 1..Len(us) |-> us[i].b])
